@@ -125,6 +125,7 @@ class UnitGen:
         self.canary = None  # fn id -> append assert(false)
         self.force_assumed = set()  # fn ids whose body is outside the verifier's subset on this tree: contract assumed, reported
         self.force_drop = set()     # assumed fn ids whose copied SIGNATURE no longer compiles in the unit (e.g. it names a new private type)
+        self.extra_aliases = []     # `type X = ...;` items of the repository that copied text turned out to need (found on demand)
 
     def names_baseline(self):
         if not hasattr(self, '_names'):
@@ -241,7 +242,30 @@ class UnitGen:
                 self.gen_fn(g, e[1])
         g.framework_sha = fw.hexdigest()
         self.follow_field_renames(g)
+        if self.extra_aliases:
+            # module-level type aliases of the repository that a copied item or function names: copied verbatim
+            for i, ln in enumerate(g.lines):
+                if ln.strip() == 'verus! {':
+                    for k, (name, text, where) in enumerate(self.extra_aliases):
+                        g.lines.insert(i + 1 + k, text + ' //@alias.%s' % name)
+                        g.map.insert(i + 1 + k, dict(kind='framework', src=where))
+                    g.rewrites.append(dict(fn='(unit)', id='ALIAS', frm='', to=', '.join(a[0] for a in self.extra_aliases)))
+                    break
         return g
+
+    def find_alias(self, name):
+        """text of `type <name> = ...;` at module level of a source file of the repository, or None"""
+        import glob as _glob
+        for f in sorted(_glob.glob(os.path.join(self.repo, 'src', '**', '*.rs'), recursive=True)):
+            try:
+                txt = open(f).read()
+            except OSError:
+                continue
+            m = re.search(r'^(?:pub(?:\([^)]*\))?\s+)?type\s+%s\b[^;{]*=[^;]*;' % re.escape(name), txt, re.M)
+            if m:
+                t = re.sub(r'^pub(?:\([^)]*\))?\s+', '', m.group(0))
+                return (name, 'pub ' + ' '.join(t.split()), os.path.relpath(f, self.repo))
+        return None
 
     @staticmethod
     def struct_fields(src_text):
